@@ -54,6 +54,9 @@ impl Target {
         let exe = format!("{}/targets/vtarget", build_dir());
         let mut child = Command::new(&exe)
             .args(args)
+            // the kernel rewrites the rseq area (in the TCB at the top of each thread stack) whenever a
+            // thread migrates; switching registration off keeps stopped threads' memory still
+            .env("GLIBC_TUNABLES", "glibc.pthread.rseq=0")
             .stdin(Stdio::null())
             .stdout(Stdio::piped())
             .stderr(Stdio::null())
@@ -88,8 +91,6 @@ impl Target {
             })
             .collect();
         let page = desc["page"].as_u64().unwrap();
-        // main blocks right after printing: give it a moment to enter the syscall
-        std::thread::sleep(std::time::Duration::from_millis(5));
         let done = Arc::new(AtomicBool::new(false));
         // watchdog: a live case must never hang the harness
         {
@@ -105,7 +106,29 @@ impl Target {
             });
         }
         let mem = std::fs::File::open(format!("/proc/{}/mem", pid)).ok();
-        Ok(Target { child, pid, desc, desc_raw: line.trim().to_string(), threads, page, mem, done })
+        let t = Target { child, pid, desc, desc_raw: line.trim().to_string(), threads, page, mem, done };
+        t.wait_parked();
+        Ok(t)
+    }
+
+    /// Wait until every blocking thread really sits in its read(): a thread that was stopped and
+    /// resumed (by an earlier dump, or that has only just been created) re-enters the syscall a moment
+    /// later, and until then its registers are those of the restart window.  A time-based wait is
+    /// not enough on a loaded machine.
+    pub fn wait_parked(&self) {
+        let deadline = std::time::Instant::now() + std::time::Duration::from_secs(2);
+        loop {
+            let all = self.threads.iter().filter(|t| !t.spin).all(|t| {
+                match std::fs::read_to_string(format!("/proc/{}/task/{}/syscall", self.pid, t.tid)) {
+                    Ok(s) => s.starts_with("0 "),
+                    Err(_) => true, // gone
+                }
+            });
+            if all || std::time::Instant::now() > deadline {
+                return;
+            }
+            std::thread::sleep(std::time::Duration::from_micros(300));
+        }
     }
 
     pub fn read_mem(&self, addr: u64, len: usize) -> Option<Vec<u8>> {
@@ -202,6 +225,8 @@ pub struct DumpCfg {
     pub user_mappings: Vec<(u64, u64, u64, u8, String, Vec<u8>)>,
     /// (phnum, phdr, gate, entry)
     pub direct_auxv: Option<(u64, u64, u64, u64)>,
+    /// how long the dumper waits for the SIGSTOP to take effect (None: the library's default)
+    pub stop_timeout_ns: Option<u64>,
 }
 
 impl DumpCfg {
@@ -280,6 +305,9 @@ pub fn writer_for(t: &Target, cfg: &DumpCfg) -> MinidumpWriter {
     }
     if cfg.sanitize {
         w.sanitize_stack();
+    }
+    if let Some(ns) = cfg.stop_timeout_ns {
+        w.stop_timeout(std::time::Duration::from_nanos(ns));
     }
     if let Some(p) = cfg.principal {
         w.skip_stacks_if_mapping_unreferenced();
@@ -403,6 +431,7 @@ pub struct DumpOutcome {
 
 /// one real dump of `t`, everything recorded
 pub fn dump_case(prop: &str, id: &str, t: &Target, cfg: &DumpCfg, dest: &mut RecDest, extra_fields: &str) -> DumpOutcome {
+    t.wait_parked();
     let n = LIVE_COUNTER.fetch_add(1, Ordering::SeqCst);
     let dir = run_dir(prop);
     let base = format!("{}/{}-{}", dir, id, n);
